@@ -186,7 +186,38 @@ def rb(orig, rule):
     return ' '.join(out)
 
 
+def r6sig(orig, rule):
+    # fn NAME<C, P>(pattern: P, ...) -> RET where C: Borrow<u8>, P: IntoIterator<Item = C> [, extra bounds]
+    #   -> fn NAME(pattern: &[u8], ...) -> RET          (iterator parameter instantiated at a byte slice)
+    s = norm(orig)
+    m = _m(r'(.*?fn %s) < (%s) , (%s) > \( (.*) \) (-> .+? )?where (.+?) ,?' % (ID, ID, ID), s)
+    head, c, p, args, ret, where = m.groups()
+    if not re.search(r'%s : Borrow < u8 >' % c, where) or not re.search(r'%s : (IntoIterator|Iterator) < Item = %s >' % (p, c), where):
+        raise NoMatch('where clause is not the byte-iterator pattern')
+    args2 = re.sub(r'\b%s\b' % p, '&[u8]', args)
+    if args2 == args:
+        raise NoMatch('parameter type not found')
+    return '%s(%s) %s' % (head, args2, ret or '')
+
+
+def r6for(orig, rule):
+    # for X in E {  ->  for X in E.iter() {        (E: &[u8])
+    s = norm(orig)
+    m = _m(r'for (%s) in (%s) \{' % (ID, ID), s)
+    return 'for %s in %s.iter() {' % m.groups()
+
+
+def r6b(orig, rule):
+    # *c.borrow() -> *c     (Borrow<u8> for &u8 / u8 is the identity)
+    s = norm(orig)
+    out, n = re.subn(r'\* (%s) \. borrow \( \)' % ID, r'* \1', s)
+    if n == 0:
+        raise NoMatch('no *x.borrow()')
+    return out
+
+
 GENERATORS = {
+    'R6sig': r6sig, 'R6for': r6for, 'R6b': r6b,
     'RB': rb,
     'R1': r1, 'R2': r2, 'R3': r3, 'R4': r4, 'R9': r9, 'R9t': r9t, 'R10': r10, 'R10t': r10t, 'R11': r11,
     'R14': r14, 'R15': r15, 'R15t': r15t, 'R17': r17,
